@@ -7,7 +7,7 @@ WT=/tmp/wt_$ID
 for d in "$WT"/_mut/*/; do
   i=$(basename "$d")
   [ -f "$d/patch.diff" ] || continue
-  echo "=== $ID-$i"
+  echo "=== $ID-${TAG:-}$i"
   git -C "$WT" checkout -q -- . 2>/dev/null
   d0=$(cd "$WT" && timeout 120 /venv/bin/python "$d/demo.py" >/dev/null 2>&1; echo $?)
   if ! git -C "$WT" apply "$d/patch.diff" 2>/dev/null; then echo "  patch does not apply in worktree"; continue; fi
@@ -19,7 +19,7 @@ for d in "$WT"/_mut/*/; do
   res=$(/verif/tools/mutant.sh "$d/patch.diff" $CHECKS 2>&1)
   echo "$res" | sed 's/^/  /' | cut -c1-330
   if [ "$ok" = yes ]; then
-    out=/verif/seeded/$ID-$i; mkdir -p "$out"
+    out=/verif/seeded/$ID-${TAG:-}$i; mkdir -p "$out"
     cp "$d/patch.diff" "$out/patch.diff"; cp "$d/notes.md" "$out/notes.md" 2>/dev/null
     sed "s#'$WT'#__import__('os').environ.get('VP_REPO', '/repo')#g; s#\"$WT\"#__import__('os').environ.get('VP_REPO', '/repo')#g" "$d/demo.py" > "$out/demo.py"
     caught=$(echo "$res" | grep -c 'exit=1')
@@ -27,7 +27,7 @@ for d in "$WT"/_mut/*/; do
 import json, sys, os
 out, pid, i, checks, caught = sys.argv[1:6]
 notes = open(os.path.join(out, 'notes.md')).read() if os.path.exists(os.path.join(out, 'notes.md')) else ''
-json.dump({'property': pid, 'id': '%s-%s' % (pid, i), 'origin': 'independent sub-agent given only the property text and a scratch worktree',
+json.dump({'property': pid, 'id': '%s-%s%s' % (pid, os.environ.get('TAG', ''), i), 'origin': 'independent sub-agent given only the property text and a scratch worktree',
            'needs_to_manifest': notes[:1500],
            'verified': 'patch applied in scratch worktree: 70 stable tests pass; demo.py exit 0 on clean tree, non-zero with the patch',
            'checks_run': checks.split(), 'detected_by_quick_checks': int(caught) > 0}, open(os.path.join(out, 'meta.json'), 'w'), indent=1)
